@@ -11,6 +11,8 @@ orders (`TxMode`), every window `W ≥ 1`; start-up: every old chain and every n
 -/
 import BtcwVerif.Lemmas.SyncTipEvolve
 import BtcwVerif.Lemmas.SyncTipStartup
+import BtcwVerif.Lemmas.SyncTipCompose
+import BtcwVerif.Lemmas.SyncTipNotify
 namespace SyncTip
 
 /-- Chains are lists with parent links: the same hash at height `h` means the same chain below `h`. -/
@@ -79,5 +81,263 @@ example : ∃ w', startupRollback cfg0 (evolve cfg0 (genesisWallet C0, []) [.ext
     w'.syncedTo = stampOf C0 [] := by
   refine ⟨_, rfl, ?_⟩
   decide
+
+/-! ### Start-up composed with evolution
+
+`startup` = the whole `syncWithChain` of a reopened wallet (rollback loop → `recovery` when `recW > 0`, in batches of
+`batch` blocks → rescan → `RescanFinished`/`catchUpHashes`).  Quantification: every stopped wallet (`StoppedInv`:
+what `Inv` leaves when the wallet is stopped), every backend chain `tip` (offline extension, offline reorg of any
+depth, wallet transactions in stale blocks = arbitrary `Content`), every `recW`, `batch`, `W ≥ 1`. -/
+
+/-- Total outcome of start-up: the rollback transaction fails, nothing is written and `syncWithChain` reports an
+    error (the wallet retries), or start-up succeeds and the wallet is in sync with the backend's chain — `Inv`, the
+    hypothesis of `C15_tip` / `C15_hashes` / `C15_no_offchain_tx`. -/
+theorem C15_startup_total (cfg : Cfg) (hW : 1 ≤ cfg.W) {w : Wallet} {old : BlockId} {lo : Nat}
+    (hS : StoppedInv cfg w old lo) (tip : BlockId) (recW batch : Nat) :
+    ((∃ e, startupRollback cfg { w with chainSynced := false } tip = .error e) ∧
+      startup cfg recW batch w tip = ({ w with chainSynced := false }, false)) ∨
+    (∃ w' c, startup cfg recW batch w tip = (w', true) ∧
+      (∃ w1, startupRollback cfg { w with chainSynced := false } tip = .ok w1) ∧
+      IsLastCommon old tip c ∧ old.length ≤ tip.length ∧ Inv cfg w' tip (startupLo cfg.W lo c tip.length)) :=
+  startup_total cfg hW hS tip recW batch
+
+/-- **A successful start-up establishes the invariant.**  `c` is the height of the last block the wallet's old chain
+    has in common with the backend's; the remembered range afterwards starts at
+    `lo' = startupLo W lo c |tip|`, with `min lo c ≤ lo' ≤ max (min lo c) (|tip| + 1 − W)`: what was remembered at or
+    below the common block stays remembered unless the catch-up prunes it (`height − W`). -/
+theorem C15_startup_establishes_inv (cfg : Cfg) (hW : 1 ≤ cfg.W) {w : Wallet} {old : BlockId} {lo : Nat}
+    (hS : StoppedInv cfg w old lo) (tip : BlockId) (recW batch : Nat) {w' : Wallet}
+    (hok : startup cfg recW batch w tip = (w', true)) :
+    ∃ c, IsLastCommon old tip c ∧ old.length ≤ tip.length ∧ Inv cfg w' tip (startupLo cfg.W lo c tip.length) ∧
+      min lo c ≤ startupLo cfg.W lo c tip.length ∧
+      startupLo cfg.W lo c tip.length ≤ max (min lo c) (tip.length + 1 - cfg.W) := by
+  rcases startup_total cfg hW hS tip recW batch with ⟨_, h⟩ | ⟨w2, c, h, _, h1, h2, h3⟩
+  · rw [h] at hok; cases hok
+  · rw [h] at hok
+    have : w2 = w' := (Prod.mk.inj hok).1
+    subst this
+    exact ⟨c, h1, h2, h3, startupLo_ge _ _ _ _, startupLo_le _ _ _ _ h1.2.1⟩
+
+/-- **When start-up succeeds** (so the composed theorems are not vacuous): the backend is at least as high as the
+    wallet's tip, the last common block is within the remembered range, and — when blocks have to be rolled back —
+    the block below it is remembered too or it is the genesis block (the same condition `ValidStep` puts on an
+    online reorg).  Any recovery window, any batch size. -/
+theorem C15_startup_succeeds (cfg : Cfg) (hW : 1 ≤ cfg.W) {w : Wallet} {old : BlockId} {lo : Nat}
+    (hS : StoppedInv cfg w old lo) (tip : BlockId) (recW batch : Nat) (c : Nat)
+    (hlen : old.length ≤ tip.length) (hcm : IsLastCommon old tip c) (hlo : lo ≤ c)
+    (hpred : c = old.length ∨ c = 0 ∨ lo + 1 ≤ c) :
+    ∃ w', startup cfg recW batch w tip = (w', true) ∧ Inv cfg w' tip (startupLo cfg.W lo c tip.length) := by
+  obtain ⟨w1, h1⟩ := startupRollback_succeeds cfg hS.unsynced tip c hlen hcm hlo hpred
+  rcases startup_total cfg hW hS tip recW batch with ⟨⟨e, he⟩, _⟩ | ⟨w', c', h, _, hc', _, hI⟩
+  · rw [h1] at he; cases he
+  · have : c' = c := isLastCommon_unique hc' hcm
+    subst this
+    exact ⟨w', h, hI⟩
+
+/-- … and it fails (without writing anything) when the backend is lower than the wallet's tip. -/
+theorem C15_startup_fails_below_tip (cfg : Cfg) (hW : 1 ≤ cfg.W) {w : Wallet} {old : BlockId} {lo : Nat}
+    (hS : StoppedInv cfg w old lo) (tip : BlockId) (recW batch : Nat) (hlen : tip.length < old.length) :
+    startup cfg recW batch w tip = ({ w with chainSynced := false }, false) := by
+  rcases startup_total cfg hW hS tip recW batch with ⟨_, h⟩ | ⟨_, _, _, _, _, h, _⟩
+  · exact h
+  · omega
+
+/-- Start-up against ANY backend chain followed by ANY valid evolution: the synced-to stamp is the backend's tip. -/
+theorem C15_startup_then_evolve_tip (cfg : Cfg) (hW : 1 ≤ cfg.W) {w : Wallet} {old : BlockId} {lo : Nat}
+    (hS : StoppedInv cfg w old lo) (tip : BlockId) (recW batch : Nat) {w' : Wallet}
+    (hok : startup cfg recW batch w tip = (w', true)) {steps : List Step} {tip' : BlockId} {lo' : Nat}
+    (hr : ∀ c, IsLastCommon old tip c → ValidRun cfg.W tip (startupLo cfg.W lo c tip.length) steps tip' lo') :
+    (evolve cfg (w', tip) steps).2 = tip' ∧ (evolve cfg (w', tip) steps).1.syncedTo = stampOf cfg.C tip' := by
+  obtain ⟨c, hc, _, hI, _⟩ := C15_startup_establishes_inv cfg hW hS tip recW batch hok
+  exact C15_tip cfg hW hI (hr c hc)
+
+/-- … every remembered hash at a height ≤ tip is the best chain's, and every height that is ≥ `min lo c` (remembered
+    before the stop and not above the common block) and within `W` of the highest tip ever reached is remembered. -/
+theorem C15_startup_then_evolve_hashes (cfg : Cfg) (hW : 1 ≤ cfg.W) {w : Wallet} {old : BlockId} {lo : Nat}
+    (hS : StoppedInv cfg w old lo) (tip : BlockId) (recW batch : Nat) {w' : Wallet}
+    (hok : startup cfg recW batch w tip = (w', true)) {steps : List Step} {tip' : BlockId} {lo' : Nat}
+    (hr : ∀ c, IsLastCommon old tip c → ValidRun cfg.W tip (startupLo cfg.W lo c tip.length) steps tip' lo') :
+    let wf := (evolve cfg (w', tip) steps).1
+    (∀ h x, h ≤ tip'.length → wf.hashes h = some x → x = some (ancestorAt tip' h)) ∧
+    (∀ c, IsLastCommon old tip c → ∀ h, min lo c ≤ h → maxTip tip steps + 1 - cfg.W ≤ h → h ≤ tip'.length →
+      wf.hashes h = some (some (ancestorAt tip' h))) := by
+  obtain ⟨c, hc, _, hI, _, hle⟩ := C15_startup_establishes_inv cfg hW hS tip recW batch hok
+  obtain ⟨h1, h2⟩ := C15_hashes cfg hW hI (hr c hc)
+  refine ⟨h1, ?_⟩
+  intro c' hc' h g1 g2 g3
+  have : c' = c := isLastCommon_unique hc' hc
+  subst this
+  have := maxTip_ge tip steps
+  exact h2 h (by omega) g2 g3
+
+/-- … and no transaction is recorded as confirmed in a block that is not on the best chain (in particular none of the
+    wallet transactions of the blocks that went stale while the wallet was stopped). -/
+theorem C15_startup_then_evolve_no_offchain_tx (cfg : Cfg) (hW : 1 ≤ cfg.W) {w : Wallet} {old : BlockId} {lo : Nat}
+    (hS : StoppedInv cfg w old lo) (tip : BlockId) (recW batch : Nat) {w' : Wallet}
+    (hok : startup cfg recW batch w tip = (w', true)) {steps : List Step} {tip' : BlockId} {lo' : Nat}
+    (hr : ∀ c, IsLastCommon old tip c → ValidRun cfg.W tip (startupLo cfg.W lo c tip.length) steps tip' lo') :
+    ∀ r ∈ (evolve cfg (w', tip) steps).1.mined, r.height ≤ tip'.length ∧ r.hash = some (ancestorAt tip' r.height) := by
+  obtain ⟨c, hc, _, hI, _⟩ := C15_startup_establishes_inv cfg hW hS tip recW batch hok
+  exact C15_no_offchain_tx cfg hW hI (hr c hc)
+
+/-- The cycle closes: a wallet in sync can be stopped (`Inv.stopped`), restarted against any chain, evolve, be stopped
+    again, … — every successful start-up re-establishes `Inv`. -/
+theorem C15_stop_start_cycle (cfg : Cfg) (hW : 1 ≤ cfg.W) {w : Wallet} {old : BlockId} {lo : Nat}
+    (hI : Inv cfg w old lo) (tip : BlockId) (recW batch : Nat) {w' : Wallet}
+    (hok : startup cfg recW batch w tip = (w', true)) : ∃ lo', Inv cfg w' tip lo' := by
+  obtain ⟨c, _, _, h, _⟩ := C15_startup_establishes_inv cfg hW hI.stopped tip recW batch hok
+  exact ⟨_, h⟩
+
+/-! Non-vacuity of the composition: the wallet is in sync with `[2,1]` (wallet transaction 7 confirmed in block
+    `[2,1]`), is stopped, the backend reorganises to `[5,4,1]` (depth 1; transaction 7 is mined again in `[4,1]`),
+    start-up with and without a recovery window, then one more online reorg. -/
+def C2 : Content := ⟨fun b => b.length, fun b => if b = [2, 1] ∨ b = [4, 1] then [⟨7, false⟩] else []⟩
+def cfg2 : Cfg := ⟨10000, C2⟩
+def steps2 : List Step := [.extend 1 .after, .extend 2 .after]
+def wOld2 : Wallet := (evolve cfg2 (genesisWallet C2, []) steps2).1
+
+theorem steps2_valid : ValidRun 10000 [] 0 steps2 [2, 1] 0 := .cons trivial (.cons trivial (.nil _ _))
+
+theorem wOld2_inv : Inv cfg2 wOld2 [2, 1] 0 :=
+  (run_preserves_inv cfg2 (by decide) (inv_genesis cfg2 (by decide)) steps2_valid).1
+
+example : wOld2.mined = [⟨⟨7, false⟩, 2, some [2, 1]⟩] := by decide
+example : IsLastCommon [2, 1] [5, 4, 1] 1 := by
+  refine ⟨by decide, by decide, by decide, ?_⟩
+  intro h h1 h2 _
+  have : h = 2 := by simp at h2; omega
+  subst this; decide
+/-- recW = 0: the stale record is rolled back and the rescan records the transaction in its new block -/
+example : (startup cfg2 0 2000 wOld2 [5, 4, 1]).2 = true ∧
+    (startup cfg2 0 2000 wOld2 [5, 4, 1]).1.mined = [⟨⟨7, false⟩, 2, some [4, 1]⟩] ∧
+    (startup cfg2 0 2000 wOld2 [5, 4, 1]).1.syncedTo = stampOf C2 [5, 4, 1] := by decide
+/-- recW > 0, batch size 1 (two recovery batches) -/
+example : (startup cfg2 3 1 wOld2 [5, 4, 1]).2 = true ∧
+    (startup cfg2 3 1 wOld2 [5, 4, 1]).1.mined = [⟨⟨7, false⟩, 2, some [4, 1]⟩] ∧
+    (startup cfg2 3 1 wOld2 [5, 4, 1]).1.syncedTo = stampOf C2 [5, 4, 1] := by decide
+/-- the theorems apply to both: -/
+example : ∃ lo', Inv cfg2 (startup cfg2 0 2000 wOld2 [5, 4, 1]).1 [5, 4, 1] lo' :=
+  C15_stop_start_cycle cfg2 (by decide) wOld2_inv [5, 4, 1] 0 2000 (Prod.ext rfl (by decide))
+example : ∃ lo', Inv cfg2 (startup cfg2 3 1 wOld2 [5, 4, 1]).1 [5, 4, 1] lo' :=
+  C15_stop_start_cycle cfg2 (by decide) wOld2_inv [5, 4, 1] 3 1 (Prod.ext rfl (by decide))
+/-- the success criterion applies (c = 1, lo = 0, genesis below the common block) -/
+example : ∃ w', startup cfg2 3 1 wOld2 [5, 4, 1] = (w', true) ∧ Inv cfg2 w' [5, 4, 1] (startupLo 10000 0 1 3) :=
+  C15_startup_succeeds cfg2 (by decide) wOld2_inv.stopped [5, 4, 1] 3 1 1 (by decide)
+    ⟨by decide, by decide, by decide, by
+      intro h h1 h2 _
+      have : h = 2 := by simp at h2; omega
+      subst this; decide⟩ (by decide) (Or.inr (Or.inr (by decide)))
+/-- start-up, then an online depth-2 reorg: the composed theorem gives the final tip -/
+example : (evolve cfg2 ((startup cfg2 3 1 wOld2 [5, 4, 1]).1, [5, 4, 1]) [.reorg 2 [6, 7, 8] .before]).1.syncedTo
+    = stampOf C2 [8, 7, 6, 1] :=
+  (C15_startup_then_evolve_tip cfg2 (by decide) wOld2_inv.stopped [5, 4, 1] 3 1 (Prod.ext rfl (by decide))
+    (lo' := 0) (fun c hc => by
+      have : c = 1 := isLastCommon_unique hc ⟨by decide, by decide, by decide, by
+        intro h h1 h2 _
+        have : h = 2 := by simp at h2; omega
+        subst this; decide⟩
+      subst this
+      exact .cons ⟨by decide, by decide⟩ (.nil _ _))).2
+
+/-- **Blocks arriving while the start-up rescan is in flight** (`startupDuring`, `during` ≠ []), the case C15 speaks
+    about: nothing to catch up (the backend's chain at the time of the rescan request is the wallet's own), any number
+    of blocks `br` connected before `RescanFinished` is processed, any notification order: start-up succeeds and the
+    wallet is in sync with the extended chain.  (`during = []` for ANY backend chain is `C15_startup_establishes_inv`.) -/
+theorem C15_startup_blocks_during_rescan (cfg : Cfg) (hW : 1 ≤ cfg.W) {w : Wallet} {old : BlockId} {lo : Nat}
+    (hS : StoppedInv cfg w old lo) (batch : Nat) (m : TxMode) (br : List Nat) :
+    ∃ w', startupDuring cfg 0 batch w old (connectBranch cfg.C m old br) = (w', true) ∧
+      Inv cfg w' (br.reverse ++ old) (loAfterN cfg.W lo old.length br.length) :=
+  startup_blocks_during_rescan cfg hW hS batch m br
+
+/-- With something to catch up, a block that arrives during the rescan is lost until the next notification: the
+    wallet (at `[1]`) restarts against `[2,1]`, block `[3,2,1]` is connected before `RescanFinished(height 2)`;
+    `connectBlock` fails (height 2 not yet remembered), `catchUpHashes` stops at height 2.  This is the race the TODO
+    in `catchUpHashes` documents; DESIGN §6 C15 puts it outside the property (explored by the engine, not flagged). -/
+example : (startupDuring cfg0 0 2000 (evolve cfg0 (genesisWallet C0, []) [.extend 1 .after]).1 [2, 1]
+      (connectNtfns C0 .after [3, 2, 1])).1.syncedTo = stampOf C0 [2, 1] := by decide
+
+/-! ### The wallet's own notification stream (`wallet.NtfnServer`, `TransactionNotifications`)
+
+`evolveN` runs the evolution with the modelled `NotificationServer` (`NSrv`: `currentTxNtfn` + what was delivered to
+the registered client) next to the wallet; `runEvents` are the `notifyAttachedBlock` / `notifyDetachedBlock` calls
+`connectBlock` / `disconnectBlock` make on the way (`blockEvents`); `replayEv` is a client applying them: attached
+= the tip again or a child of the tip (push), detached = the current tip (pop) or a block that is not on the chain
+(ignored); anything else fails the replay. -/
+
+/-- **The notifications follow the backend.**  Over any valid evolution from a wallet in sync:
+    (1) the server does not influence the wallet (`evolveN` projects onto `evolve`);
+    (2) replaying the attach/detach calls on the initial tip yields the final tip — in particular every detached block
+        that is on the client's chain is its then-current tip, every attached block is a child of the then-current tip
+        or the tip again;
+    (3) the detached hashes the server delivered or holds pending are exactly the `notifyDetachedBlock` calls, in
+        order (coalescing drops, duplicates, reorders nothing). -/
+theorem C15_notifications_follow_backend (cfg : Cfg) (hW : 1 ≤ cfg.W) {w : Wallet} {tip : BlockId} {lo : Nat}
+    {steps : List Step} {tip' : BlockId} {lo' : Nat} (hI : Inv cfg w tip lo)
+    (hr : ValidRun cfg.W tip lo steps tip' lo') (s : NSrv) :
+    ((evolveN cfg ((w, s), tip) steps).1.1, (evolveN cfg ((w, s), tip) steps).2) = evolve cfg (w, tip) steps ∧
+    replayEv tip (runEvents cfg (w, tip) steps) = some tip' ∧
+    (evolveN cfg ((w, s), tip) steps).1.2.allDetached = s.allDetached ++ detachedOf (runEvents cfg (w, tip) steps) := by
+  refine ⟨evolveN_proj cfg steps (w, s) tip, ?_, evolveN_detached cfg steps (w, s) tip⟩
+  have := replay_run cfg hW hI hr []
+  simpa [replayEv] using this
+
+/-- What exactly the code emits for the notifications that do not move the tip: a disconnect for a block that is not on
+    the best chain makes no call (no hash remembered at its height ⇒ the handler errors) or one `detached` call for
+    that block — which a client ignores because the block is not on its chain; a repeated connect of the tip makes no
+    call (predecessor not remembered) or one `attached(tip)` call; transaction notifications make none. -/
+theorem C15_notifications_stale_and_repeated (cfg : Cfg) (w : Wallet) (tip : BlockId) :
+    (∀ b : BlockId, ancestorAt tip b.length ≠ b →
+      (blockEvents cfg w (.disconnected (stampOf cfg.C b)) = [] ∨
+       blockEvents cfg w (.disconnected (stampOf cfg.C b)) = [.detached (some b)]) ∧
+      ∀ rest, replayEv tip (blockEvents cfg w (.disconnected (stampOf cfg.C b)) ++ rest) = replayEv tip rest) ∧
+    ((blockEvents cfg w (.connected (stampOf cfg.C tip)) = [] ∨
+      blockEvents cfg w (.connected (stampOf cfg.C tip)) = [.attached (stampOf cfg.C tip)]) ∧
+      ∀ rest, replayEv tip (blockEvents cfg w (.connected (stampOf cfg.C tip)) ++ rest) = replayEv tip rest) ∧
+    (∀ t blk, blockEvents cfg w (.relevantTx t blk) = []) ∧ (∀ b ts, blockEvents cfg w (.filtered b ts) = []) := by
+  refine ⟨fun b hb => ⟨?_, replay_stale tip b hb⟩, ⟨?_, replay_dupConnect tip⟩, fun _ _ => rfl, fun _ _ => rfl⟩
+  · simp only [blockEvents]
+    split
+    · exact Or.inl rfl
+    · split
+      · exact Or.inr rfl
+      · exact Or.inl rfl
+  · simp only [blockEvents]
+    split
+    · exact Or.inr rfl
+    · exact Or.inl rfl
+
+/-- Delivery: a `notifyAttachedBlock(b)` call leaves `b` as the last attached block of the notification it delivers —
+    or of the pending one, held back exactly while the wallet is chain-synced and the notification does not hold more
+    attached than detached blocks. -/
+theorem C15_notifications_attached_delivery (synced : Bool) (s : NSrv) (b : Stamp) :
+    (∃ n e, (notifyAttached synced s b).cur = some n ∧ (notifyAttached synced s b).sent = s.sent ∧
+      n.attached.getLast? = some e ∧ e.hash = b.hash ∧ synced = true ∧ n.attached.length ≤ n.detached.length) ∨
+    (∃ n e, (notifyAttached synced s b).cur = none ∧ (notifyAttached synced s b).sent = s.sent ++ [n] ∧
+      n.attached.getLast? = some e ∧ e.hash = b.hash ∧ (synced = false ∨ n.detached.length < n.attached.length)) :=
+  notify_attached_last synced s b
+
+/-- The start-up with the server computes the same wallet as the plain start-up model. -/
+theorem C15_notifications_startup_proj (cfg : Cfg) (recW batch : Nat) (w : Wallet) (tip : BlockId) (during : List Ntfn) :
+    ((startupDuringN cfg recW batch w tip during).1.1, (startupDuringN cfg recW batch w tip during).2)
+      = startupDuring cfg recW batch w tip during :=
+  startupDuringN_proj cfg recW batch w tip during
+
+/-! Non-vacuity: the depth-2 reorg of `steps1` (wallet transaction 7 in block `[1]`, BlockConnected-before-RelevantTx
+    order).  Calls: attach `[1]`, attach `[2,1]`, detach `[2,1]`, detach `[1]`, attach `[3]`, attach `[4,3]`.  The
+    server delivered two notifications (the second one repeats block `[1]`, now with its transaction) and holds the
+    reorg pending: 2 attached blocks are not more than 2 detached ones. -/
+example : runEvents cfg1 (genesisWallet C1, []) steps1 =
+    [.attached (stampOf C1 [1]), .attached (stampOf C1 [2, 1]), .detached (some [2, 1]), .detached (some [1]),
+     .attached (stampOf C1 [3]), .attached (stampOf C1 [4, 3])] := by decide
+example : replayEv [] (runEvents cfg1 (genesisWallet C1, []) steps1) = some [4, 3] :=
+  (C15_notifications_follow_backend cfg1 (by decide) (inv_genesis cfg1 (by decide)) steps1_valid {}).2.1
+example : (evolveN cfg1 ((genesisWallet C1, {}), []) steps1).1.2.sent =
+      [{ attached := [⟨1, some [1], []⟩] }, { attached := [⟨1, some [1], [7]⟩, ⟨2, some [2, 1], []⟩] }] ∧
+    (evolveN cfg1 ((genesisWallet C1, {}), []) steps1).1.2.cur =
+      some { attached := [⟨1, some [3], []⟩, ⟨2, some [4, 3], []⟩], detached := [some [2, 1], some [1]] } := by decide
+/-- one more block and the reorg is delivered in one notification -/
+example : (evolveN cfg1 ((genesisWallet C1, {}), []) (steps1 ++ [.extend 5 .filtered])).1.2.sent.getLast? =
+      some { attached := [⟨1, some [3], []⟩, ⟨2, some [4, 3], []⟩, ⟨3, some [5, 4, 3], []⟩],
+             detached := [some [2, 1], some [1]] } := by decide
 
 end SyncTip
